@@ -280,6 +280,10 @@ func (wd *world) genSpec(tp *engine.Tape, kind, ns, name string) config.Spec {
 			dr.Subsets = []*networking.Subset{{Name: "v2", Labels: map[string]string{"version": "v2"},
 				TrafficPolicy: &networking.TrafficPolicy{ConnectionPool: &networking.ConnectionPoolSettings{Tcp: &networking.ConnectionPoolSettings_TCPSettings{MaxConnections: 7}}}}}
 		}
+		if len(dr.Subsets) > 0 && tp.Bool(1, 4, "crossed") {
+			// same subset name, other endpoints: changes endpoint content without changing any resource name
+			dr.Subsets[0].Labels = map[string]string{"version": map[string]string{"v1": "v2", "v2": "v1"}[dr.Subsets[0].Name]}
+		}
 		switch tp.Choose(6, "tp") {
 		case 5:
 			// locality weighted distribution without outlier detection
@@ -575,7 +579,40 @@ func (wd *world) startRecipe(tp *engine.Tape) {
 				{Address: "10.1.7.1", Locality: "region1/zone1", Labels: map[string]string{"version": "v1"}},
 				{Address: "10.1.7.2", Locality: "region2/zone2", Labels: map[string]string{"version": "v2"}}}}
 	}
-	switch tp.Choose(3, "recipe") {
+	switch tp.Choose(5, "recipe") {
+	case 3: // a service and the rule that gives it subsets go away together (one push when the gaps are short)
+		wd.recipe = []func(tp *engine.Tape) mutation{
+			func(tp *engine.Tape) mutation { settle("a", "se1"); return wd.put("ServiceEntry", "a", "se1", se(nil), 0) },
+			func(tp *engine.Tape) mutation {
+				return wd.put("DestinationRule", "a", "dr1", &networking.DestinationRule{Host: h, Subsets: []*networking.Subset{
+					{Name: "v1", Labels: map[string]string{"version": "v1"}}, {Name: "v2", Labels: map[string]string{"version": "v2"}}}}, 0)
+			},
+			func(tp *engine.Tape) mutation {
+				if tp.Bool(1, 2, "ruleFirst") {
+					return wd.del("DestinationRule", "a", "dr1")
+				}
+				return wd.del("ServiceEntry", "a", "se1")
+			},
+			func(tp *engine.Tape) mutation {
+				if _, ok := wd.exists["DestinationRule/a/dr1"]; ok {
+					return wd.del("DestinationRule", "a", "dr1")
+				}
+				return wd.del("ServiceEntry", "a", "se1")
+			},
+		}
+	case 4: // a subset is pointed at other endpoints and back: endpoint content changes, no resource name does
+		sub := func(v string) mutation {
+			return wd.put("DestinationRule", "a", "dr1", &networking.DestinationRule{Host: h, Subsets: []*networking.Subset{{Name: "sub", Labels: map[string]string{"version": v}}}}, 0)
+		}
+		wd.recipe = []func(tp *engine.Tape) mutation{
+			func(tp *engine.Tape) mutation { settle("a", "se1"); return wd.put("ServiceEntry", "a", "se1", se(nil), 0) },
+			func(tp *engine.Tape) mutation { return sub("v1") },
+			func(tp *engine.Tape) mutation {
+				return wd.put("VirtualService", "a", "vs1", &networking.VirtualService{Hosts: []string{h}, Http: []*networking.HTTPRoute{{Route: []*networking.HTTPRouteDestination{{Destination: &networking.Destination{Host: h, Subset: "sub"}}}}}}, 0)
+			},
+			func(tp *engine.Tape) mutation { return sub("v2") },
+			func(tp *engine.Tape) mutation { return sub("v1") },
+		}
 	case 0: // rule precedence switch: a client-namespace rule overrides a root-namespace rule, then goes away / is retargeted
 		lo, hi := tp.Choose(3, "lbLow"), tp.Choose(3, "lbHigh")
 		od := &networking.OutlierDetection{Consecutive_5XxErrors: wrapperspb.UInt32(3)}
